@@ -350,6 +350,9 @@ func (m *StoreMon) OnEvent(c *eng.Ctx, ms eng.MState, ev *eng.Event) eng.MState 
 					s.iterBad = "the value appended to the snapshot is not the store's key of this iteration"
 				}
 			}
+			if b := ev.Args[0]; b.K == eng.KMake && b.T != nil && len(b.A) >= 1 && b.A[0] != nil && !(b.A[0].IsConstInt() && b.A[0].I == 0) && s.iterBad == "" {
+				s.iterBad = "the snapshot the keys are appended to does not start empty (made with length " + b.A[0].Pretty() + "): it would hand out entries that are not keys of the store"
+			}
 			s.appends = appendUniq(s.appends, ev.Results[0], 3)
 		}
 	case "return", "panic":
